@@ -110,6 +110,112 @@ def _covers_half(N, mats):
     return None
 
 
+def _summarise_rc_canon(db, ctx, f, R, src_want):
+    """Same decision as summarise_rc on the canonical element form: new[I][idx(S1)] = src[J][idx(S2)] with I + J = rows - 1, I covering every
+    row, one of S1 / S2 the symbol of a loop over symbols() and the other its complement.  Returns the summary dict, False after reporting a
+    violation, or None when this view does not apply either."""
+    from lm import iteralg as IA
+    CA = IA.Canon(f, R)
+    cells = []
+    for s_ in X.stores(f, R):
+        tc, vc = CA.canon(s_['target']), CA.canon(s_['value'])
+        bt = m(('at', ('at', '$new', '$i'), ('call~', 'as_index', ('$s1',))), tc)
+        bv = m(('at', ('at', '$src', '$j'), ('call~', 'as_index', ('$s2',))), vc)
+        if bt is not None and bv is not None:
+            cells.append((bt, bv, s_))
+    if len(cells) != 1:
+        return None
+    bt, bv, s_ = cells[0]
+
+    def sym_kind(e):
+        if e[0] == 'at' and e[1][0] == 'call' and e[1][1].endswith('Alphabet::symbols') and IA.is_pos(e[2]):
+            ext = CA.extents.get(e[2][1])
+            if ext == [('len', e[1])]:
+                return ('s', e[2])
+        if e[0] == 'call' and e[1].endswith('complement') and len(e[2]) == 1:
+            k = sym_kind(e[2][0])
+            if k and k[0] == 's':
+                return ('c', k[1])
+        return None
+    k1, k2 = sym_kind(bt['$s1']), sym_kind(bv['$s2'])
+    if not k1 or not k2 or k1[1] != k2[1]:
+        ctx.fail('R10.2', f, 'column permutation', f'columns are not driven by one loop over all of symbols(): dst {X.show(bt["$s1"], 80)}, src {X.show(bv["$s2"], 80)}', span=s_['span'])
+        return False
+    if {k1[0], k2[0]} != {'s', 'c'}:
+        ctx.fail('R10.2', f, 'column permutation', f'complement applied on {"both sides" if k1[0] == "c" else "neither side"}', span=s_['span'])
+        return False
+    if norm(bv['$src']) != src_want:
+        ctx.fail('R10.2', f, 'source matrix', f'rows are read from {X.show(bv["$src"], 60)}, expected self.data', span=s_['span'])
+        return False
+    rows_src = ('call', 'lightmotif::dense::DenseMatrix::rows', (bv['$src'],))
+    if not X.lin_eq(('bin', 'Add', bt['$i'], bv['$j']), ('bin', 'Sub', rows_src, ('k', 1))):
+        ctx.fail('R10.2', f, 'row order', f'destination row {X.show(bt["$i"], 60)} and source row {X.show(bv["$j"], 60)} do not sum to rows-1', span=s_['span'])
+        return False
+    I = bt['$i']
+    ext = CA.extents.get(I[1]) if IA.is_pos(I) else None
+    rows_ext = lambda c_: c_ in (('rows', bt['$new']), ('rows', bv['$src'])) or (c_[0] == 'sub' and c_[2] == ('k', 0) and common.is_call_to(c_[1], 'DenseMatrix::rows'))
+    if not (ext and all(rows_ext(c_) for c_ in ext)):
+        ctx.fail('R10.2', f, 'row coverage', f'reason=unrecognised-shape: destination rows {X.show(I, 60)} over {ext} are not every row', span=s_['span'])
+        return False
+    newv = norm(bt['$new'])
+    ok_new = False
+    if newv[0] == 'v':
+        d = f.defs().get(newv[1], [])
+        if len(d) == 1 and d[0][1] == 'term':
+            ne = norm(R.call(d[0][2]))
+            if m(('call~', 'DenseMatrix::new', (('call~', 'DenseMatrix::rows', (src_want,)),)), ne) is not None:
+                ok_new = True
+    if not ok_new:
+        ctx.fail('R10.2', f, 'row count', 'the new matrix is not DenseMatrix::new(<source>.rows())', span=s_['span'])
+        return False
+    return {'direction': k1[0] + k2[0], 'new': newv, 'cells': cells}
+
+
+def _rc_result(db, ctx, f0, f, via, newv, direction, cells, cover):
+    """Common tail of the reverse-complement summary: the filled matrix is what the result is built from, with self's unchanged metadata."""
+    if via is not None:
+        # the helper returns the matrix it filled (single def of _0, a move/copy of the new matrix, no Rec inlining)
+        d0 = f.defs().get(0, [])
+        ok_ret = False
+        if len(d0) == 1 and d0[0][1] != 'term' and d0[0][2].get('k') == 'use':
+            a = d0[0][2]['a']
+            pl = a.get('c') or a.get('m') or {}
+            ok_ret = pl.get('l') == newv[1] and not pl.get('pr')
+        if not ok_ret:
+            ctx.fail('R10.2', f, 'helper result', 'reason=unrecognised-shape: helper does not return the matrix it filled by a plain move')
+            return None
+    # returned value carries the new matrix and unchanged metadata
+    ret = None
+    for bi, t in f0.calls():
+        if t['dest']['l'] == 0 and not t['dest']['pr']:
+            ret = (t, norm(X.Rec(f0).call(t)))
+    meta_ok = False
+    shown = None
+    if ret:
+        t, rexp = ret
+        shown = rexp
+        if rexp[0] == 'call':
+            args = rexp[2]
+            if via is None:
+                isnew = lambda a: a == newv
+            else:
+                hshort = via[1].path
+                isnew = lambda a: a[0] == 'call' and (a[3] if len(a) > 3 else a[1]).endswith(hshort.rsplit('::', 1)[-1])
+            has_new = any(isnew(a) for a in args)
+            others = [a for a in args if not isnew(a)]
+            def is_self_meta(a):
+                return (m(('fld', ('p', 1), '$f'), a) is not None) or (a[0] == 'call' and a[1].endswith('clone') and m(('fld', ('p', 1), '$f'), a[2][0]) is not None)
+            meta_ok = has_new and all(is_self_meta(a) for a in others)
+    if not meta_ok:
+        ctx.fail('R10.2', f0, 'result construction', f'result is not built from the new matrix and self\'s unchanged metadata: {X.show(shown) if shown else None}')
+        return None
+    summ = {'rows': 'reversed', 'cols': 'complement-permuted', 'direction': direction, 'ctor': shown[1].rsplit('::', 1)[-1],
+            'via': via[1].path if via else None}
+    ctx.ok('R10.2', f0, 'new[i][σ(s)] = old[rows-1-i][σ(comp(s))] for every s in symbols() and every row i; rows preserved; metadata carried',
+           [('helper ' + via[1].path) if via else 'inline body', f'{len(cells)} cell store(s), coverage {[c[0] for c in cover]}', 'one loop over Alphabet::symbols()', 'R10.1 involution'])
+    return summ
+
+
 def summarise_rc(db, ctx, f0):
     """Relational summary of one reverse_complement body -> canonical dict or None (+ failures reported).
     Accepted designs (all must write every cell of every destination row):
@@ -121,6 +227,13 @@ def summarise_rc(db, ctx, f0):
     cells, bad = _cell_stores(f, R)
     src_want = ('fld', ('p', 1), 'data')
     via = None
+    if not cells and not bad:
+        # loop-form independent view (zipped row iterators, `out[..] = row[..]` through iterator elements): lm/iteralg.py
+        done = _summarise_rc_canon(db, ctx, f, R, src_want)
+        if done is False:
+            return None
+        if done is not None:
+            return _rc_result(db, ctx, f0, f, None, done['new'], done['direction'], done['cells'], [('all',)])
     if not cells and not bad:
         # (c) delegation: exactly one workspace callee receiving &self.data and returning the matrix
         cands = []
@@ -255,47 +368,7 @@ def summarise_rc(db, ctx, f0):
     if not ok_new:
         ctx.fail('R10.2', f, 'row count', 'the new matrix is neither DenseMatrix::new(<source>.rows()) nor a clone of the source', span=cells[0][2]['span'])
         return None
-    if via is not None:
-        # the helper returns the matrix it filled (single def of _0, a move/copy of the new matrix, no Rec inlining)
-        d0 = f.defs().get(0, [])
-        ok_ret = False
-        if len(d0) == 1 and d0[0][1] != 'term' and d0[0][2].get('k') == 'use':
-            a = d0[0][2]['a']
-            pl = a.get('c') or a.get('m') or {}
-            ok_ret = pl.get('l') == newv[1] and not pl.get('pr')
-        if not ok_ret:
-            ctx.fail('R10.2', f, 'helper result', 'reason=unrecognised-shape: helper does not return the matrix it filled by a plain move')
-            return None
-    # returned value carries the new matrix and unchanged metadata
-    ret = None
-    for bi, t in f0.calls():
-        if t['dest']['l'] == 0 and not t['dest']['pr']:
-            ret = (t, norm(X.Rec(f0).call(t)))
-    meta_ok = False
-    shown = None
-    if ret:
-        t, rexp = ret
-        shown = rexp
-        if rexp[0] == 'call':
-            args = rexp[2]
-            if via is None:
-                isnew = lambda a: a == newv
-            else:
-                hshort = via[1].path
-                isnew = lambda a: a[0] == 'call' and (a[3] if len(a) > 3 else a[1]).endswith(hshort.rsplit('::', 1)[-1])
-            has_new = any(isnew(a) for a in args)
-            others = [a for a in args if not isnew(a)]
-            def is_self_meta(a):
-                return (m(('fld', ('p', 1), '$f'), a) is not None) or (a[0] == 'call' and a[1].endswith('clone') and m(('fld', ('p', 1), '$f'), a[2][0]) is not None)
-            meta_ok = has_new and all(is_self_meta(a) for a in others)
-    if not meta_ok:
-        ctx.fail('R10.2', f0, 'result construction', f'result is not built from the new matrix and self\'s unchanged metadata: {X.show(shown) if shown else None}')
-        return None
-    summ = {'rows': 'reversed', 'cols': 'complement-permuted', 'direction': direction, 'ctor': shown[1].rsplit('::', 1)[-1],
-            'via': via[1].path if via else None}
-    ctx.ok('R10.2', f0, 'new[i][σ(s)] = old[rows-1-i][σ(comp(s))] for every s in symbols() and every row i; rows preserved; metadata carried',
-           [('helper ' + via[1].path) if via else 'inline body', f'{len(cells)} cell store(s), coverage {[c[0] for c in cover]}', 'one loop over Alphabet::symbols()', 'R10.1 involution'])
-    return summ
+    return _rc_result(db, ctx, f0, f, via, newv, direction, cells, cover)
 
 
 def r102_103(db, ctx):
